@@ -3,13 +3,15 @@
 The input space is defined by specifications: (a) Lexer.tla's transition cover (every reachable scanner mode x
 call-stack shape x every lexeme atom), concretised, plus every byte-truncation of the last lexeme ("input ends in
 the middle of any lexical construct"); (b) every byte prefix of programs; (c) a seeded stream of random bytes over
-a PHP-weighted alphabet.  Each input is parsed by the real parser in a killable child process under a deadline,
+a PHP-weighted alphabet; (d) the programs on which a PHP 5 grammar action reports an error itself, with a nil
+callback; (e) a byte sweep: every scanner mode (as a context) x every lexeme prefix after which the next byte's class
+matters x all 256 byte values (thorough: also pairs of class-boundary bytes).  Each input is parsed by the real parser in a killable child process under a deadline,
 for several versions, with and without an error callback; the specification contributes the input space and the
 Progress property (no zero-width cycle), the verdict is the property itself: returns normally, input unchanged."""
 import random
 import re
 
-from . import core, inputs, lexgen
+from . import core, inputs, lexgen, semerr
 
 ALPHA = [b"<?php ", b"<?", b"?>", b"$", b"a", b"A", b"1", b"0", b" ", b"\n", b"\r", b"\t", b'"', b"'", b"`", b"{", b"}", b"(", b")",
          b"[", b"]", b";", b",", b".", b"-", b">", b"<", b"=", b"+", b"*", b"/", b"#", b"\\", b"&", b"|", b"?", b":", b"!", b"@", b"%", b"^", b"~",
@@ -27,6 +29,41 @@ def random_inputs(rng, n, maxlen):
             s = b"<?php " + s
         out.append(s)
     return out
+
+
+# Byte sweep: every scanner mode of Lexer.tla (as a context prefix/suffix) x every lexeme prefix after which the scanner
+# looks at the next byte's class (triggers) x every byte value.  A class boundary that the hand-written helpers of
+# lexer.go and the generated machine disagree about (e.g. 0x7f / 0x80 for name bytes) shows only on one byte value.
+SWEEP_CONTEXTS = [
+    ("html", b"", b""), ("html2", b"a<b>", b" x"),
+    ("php", b"<?php ", b" ;"), ("php-noend", b"<?php ", b""),
+    ("dq", b'<?php "a', b' z";'), ("dq-open", b'<?php "a', b""),
+    ("heredoc", b"<?php echo <<<EOT\nprice: ", b"\nEOT;\n"), ("heredoc-dq", b'<?php <<<"E"\n', b" t\nE;\n"), ("heredoc-open", b"<?php <<<E\nx ", b""),
+    ("nowdoc", b"<?php <<<'E'\n", b"\nE;\n"),
+    ("backquote", b"<?php `a ", b" z`;"),
+    ("property", b"<?php $a->", b" ;"), ("static", b"<?php A::", b" ;"),
+    ("dq-var", b'<?php "$a', b' z";'), ("dq-idx", b'<?php "$a[', b']";'), ("dq-curly", b'<?php "{$a', b'}";'), ("dq-dollar-curly", b'<?php "${a', b'}";'),
+    ("heredoc-var", b"<?php <<<E\n$a", b"\nE;\n"), ("heredoc-idx", b"<?php <<<E\n$a[", b"]\nE;\n"),
+    ("comment", b"<?php /* ", b" */ ;"), ("line-comment", b"<?php // ", b"\n;"), ("hash", b"<?php # ", b"\n;"),
+    ("halt", b"<?php __halt_compiler", b""), ("halt2", b"<?php __halt_compiler(", b""), ("halt3", b"<?php __halt_compiler()", b""), ("halt4", b"<?php __halt_compiler();", b""),
+    ("sq", b"<?php 'a", b"z';"), ("after-close", b"<?php ?>", b""), ("in-braces", b"<?php { ", b" }"),
+]
+SWEEP_TRIGGERS = [b"", b"$", b"$$", b"${", b"{$", b"{", b"}", b"->", b"::", b"[", b"]", b"\\", b"<", b"<?", b"<?p", b"?", b"?>", b"#", b"/", b"/*", b"*", b"b", b"B", b"<<<",
+                  b"<<< ", b"<<<'", b'<<<"', b"0", b"0x", b"0b", b"1.", b"1e", b".", b"-", b"=", b"&", b"|", b"(", b")", b"a", b"_", b"\x80", b"\x7f",
+                  b"E", b"EOT", b"\nE", b"\nEOT", b"\n E", b"'", b'"', b"`", b"\r", b"\n", b"@", b"%", b"^", b"~", b":", b",", b";", b"!", b"e", b"x", b"yield ", b"yield from"]
+INTERESTING = [0x00, 0x09, 0x0a, 0x0d, 0x20, 0x22, 0x23, 0x24, 0x27, 0x2d, 0x2f, 0x2a, 0x30, 0x39, 0x3a, 0x3c, 0x3e, 0x3f, 0x40, 0x41, 0x5a, 0x5b, 0x5c, 0x5d, 0x5f,
+               0x60, 0x61, 0x7a, 0x7b, 0x7d, 0x7e, 0x7f, 0x80, 0xff]
+
+
+def sweep_inputs(tier):
+    for name, pre, suf in SWEEP_CONTEXTS:
+        for trig in SWEEP_TRIGGERS:
+            for b in range(256):
+                yield pre + trig + bytes([b]) + suf, "sweep:%s" % name
+            if tier == "thorough":
+                for b1 in INTERESTING:
+                    for b2 in INTERESTING:
+                        yield pre + trig + bytes([b1, b2]) + suf, "sweep2:%s" % name
 
 
 EMPTY_HEREDOC = re.compile(rb"<<<[ \t]*(['\"]?)([A-Za-z_\x80-\xff][A-Za-z0-9_\x80-\xff]*)\1\r?\n[ \t]*\2")
@@ -79,15 +116,30 @@ def run(tier):
     # (c) random bytes
     for s in random_inputs(rng, 3000 if tier == "quick" else 60000, 14):
         add(s, "random")
+    # (d) programs on which a grammar action reports an error itself (PHP 5): the callback may be nil there too
+    forced = {}
+    for p in semerr.programs():
+        b = p["src"].encode("latin-1")
+        add(b, "semantic-error")
+        forced[b] = [("5.6", True), ("5.0", True), ("5.3", False), ("7.4", True)]
+    # (e) byte sweep
+    nsweep = 0
+    for b, origin in sweep_inputs(tier):
+        add(b, origin)
+        nsweep += 1
+    check.cov["sweep_inputs"] = nsweep
     vers_all = ["5.0", "5.6", "7.0", "7.2", "7.3", "7.4"]
     tasks = []
     for i, (s, origin) in enumerate(srcs.items()):
         text = s.decode("latin-1")
         combos = [("7.4", False), ("5.6", True)]
-        if tier == "thorough" or i % 7 == 0:
+        if origin.startswith("sweep"):
+            combos = [[("7.4", False)], [("5.6", True)], [("7.2", True)], [("7.4", True)]][i % 4] if tier == "quick" else [("7.4", False), ("5.6", True), ("7.2", True)]
+        elif tier == "thorough" or i % 7 == 0:
             combos += [("7.2", True), ("5.6", False), ("7.3", True), ("7.0", False), ("5.0", False), ("7.4", True)]
         else:
             combos.append((vers_all[i % 6], i % 2 == 0))
+        combos += forced.get(s, [])
         for ver, nocb in dict.fromkeys(combos):
             tasks.append({"op": "analyze", "src": text, "ver": ver, "nocb": nocb, "limit_ms": 2000 + len(s) // 20, "_o": origin})
     res = wp.run([{k: v for k, v in t.items() if k != "_o"} for t in tasks])
